@@ -15,6 +15,8 @@ package main
 //  20     CRI line assembled from     (#time #stream #tag #log)
 //  21     postgres line from          (14 fields, see pgLine)
 //  25     csv line from               (delimiter (#field ...))
+//  30+k   DecodeToJson of scanner k   (case-of-k ...) on one Root, see tojson.go
+//  36     json decoder vs encoding/json ((#doc #extra) ...) on one Root, see tojson.go
 //  7      json cutFieldsBySize        (#path limit #data)
 //         obs = (validIn validOut (0 #out)|(2 #site) (index strlen valid exists isString))
 
@@ -27,6 +29,7 @@ import (
 	"strings"
 
 	"github.com/ozontech/file.d/decoder"
+	insaneJSON "github.com/ozontech/insane-json"
 
 	"verif/harness/hmain"
 	"verif/harness/hx"
@@ -302,6 +305,10 @@ func c12Exec(which int, cs hx.Sx) hx.Sx {
 		return execJSONCut(cs)
 	case which == 8:
 		return execJSONCutMany(cs)
+	case which == 36:
+		return execJSONRoundTrip(cs)
+	case which >= 31 && which <= 35:
+		return execToJSON(which-30, cs)
 	case which >= 0 && which < 10:
 		return execScan(which, cs)
 	case which >= 10 && which < 20:
@@ -569,6 +576,7 @@ func c12Gen(c *hmain.Ctx) {
 	}
 
 	genJSONCut(c)
+	genToJSON(c)
 }
 
 func asciiTrim(b []byte) []byte {
@@ -585,7 +593,10 @@ func asciiTrim(b []byte) []byte {
 var _ = errors.New
 
 func main() {
+	// what cmd/file.d/file.d.go:96-97 sets before anything is decoded (the library defaults are 128 nodes and verbose errors)
+	insaneJSON.DisableBeautifulErrors = true
+	insaneJSON.StartNodePoolSize = 16
 	hmain.Run(&hmain.Prop{ID: "C12",
-		Rule: "per scanner (cri, postgres, nginx_error, syslog_rfc3164, syslog_rfc5424, csv): exhaustive = every concatenation of up to N tokens of the format's delimiter alphabet, plus every truncation of canonical valid lines followed by every short token sequence; faithful = lines assembled from random well-formed fields; damaged = valid lines with random deletions/insertions of delimiters; nonascii = same with UTF-8 / invalid bytes (totality only); json-cut = json_max_fields_size on generated documents with encoding/json validity before/after; json-cut-shared-decoder = the same with ONE decoder used by 6 goroutines at once (150 repetitions per line; a replay of such a case runs alone). Non-trivial = input of >= 3 bytes for plain enumeration, every other case; distinct = distinct (sub-model, case) text.",
+		Rule: "per scanner (cri, postgres, nginx_error, syslog_rfc3164, syslog_rfc5424, csv): exhaustive = every concatenation of up to N tokens of the format's delimiter alphabet, plus every truncation of canonical valid lines followed by every short token sequence; faithful = lines assembled from random well-formed fields; damaged = valid lines with random deletions/insertions of delimiters; nonascii = same with UTF-8 / invalid bytes (totality only); json-cut = json_max_fields_size on generated documents with encoding/json validity before/after; json-cut-shared-decoder = the same with ONE decoder used by 6 goroutines at once (150 repetitions per line; a replay of such a case runs alone); tojson-* = DecodeToJson into one Root for a list of lines (1-132 csv columns, 1-9 SD elements, 15-33 SD params, 0-20 nginx custom fields, wide/narrow/wide), read back through the field list, Dig and the encoder after the line buffer was overwritten; exhaustive-<syslog>-pri = PRI 0..999 and malformed spellings x the four name formats; sweep-<syslog>-timestamp = every timestamp field at and beyond its range; exhaustive-rfc5424-sd-valid = every truncation of an accepted SD part + up to 3 tokens; json-roundtrip-* = the json decoder against encoding/json with the production node pool of 16 (documents of 0-132 fields / elements, meta field, additional decode, nesting to 10001); json-cut-many / json-cut-deep = 13-24 limited strings at once, nesting to 10001. Non-trivial = input of >= 3 bytes for plain enumeration, every other case; distinct = distinct (sub-model, case) text.",
 		Gen:  c12Gen, Exec: c12Exec})
 }
